@@ -127,6 +127,7 @@ func (h *Hasher) Reset() {
 
 // processSection writes the hash of i-th section into level 1 node of the BMT tree.
 func (h *Hasher) processSection(i int, final bool) {
+	verifGate(h, h.bmt.leaves[i], verifGateSection, final)
 	secsize := 2 * h.segmentSize
 	offset := i * secsize
 	level := 1
@@ -164,6 +165,7 @@ func (h *Hasher) writeNode(n *node, isLeft bool, s []byte) {
 	for {
 		// at the root of the bmt just write the result to the result channel
 		if n == nil {
+			verifGate(h, nil, verifGateSend, false)
 			h.result <- s
 			return
 		}
@@ -174,6 +176,7 @@ func (h *Hasher) writeNode(n *node, isLeft bool, s []byte) {
 			n.right = s
 		}
 		// the child-thread first arriving will terminate
+		verifGate(h, n, verifGateToggle, isLeft)
 		if n.toggle() {
 			return
 		}
@@ -204,6 +207,7 @@ func (h *Hasher) writeFinalNode(level int, n *node, isLeft bool, s []byte) {
 		// at the root of the bmt just write the result to the result channel
 		if n == nil {
 			if s != nil {
+				verifGate(h, nil, verifGateSend, false)
 				h.result <- s
 			}
 			return
@@ -222,6 +226,7 @@ func (h *Hasher) writeFinalNode(level int, n *node, isLeft bool, s []byte) {
 				noHash = false
 			} else {
 				// if again first thread then propagate nil and calculate no hash
+				verifGate(h, n, verifGateFinalToggle, isLeft)
 				noHash = n.toggle()
 			}
 		} else {
@@ -230,6 +235,7 @@ func (h *Hasher) writeFinalNode(level int, n *node, isLeft bool, s []byte) {
 				// if hash was pushed from right child node, write right segment change state
 				n.right = s
 				// if toggle is true, we arrived first so no hashing just push nil to parent
+				verifGate(h, n, verifGateFinalToggle, isLeft)
 				noHash = n.toggle()
 			} else {
 				// if s is nil, then thread arrived first at previous node and here there will be two,
